@@ -1,10 +1,15 @@
-import RgVerif.Model.Sx
+import RgVerif.Driver.SearcherCommon
 namespace RgVerif.Driver.C03
-open RgVerif
+open RgVerif RgVerif.Driver.SearcherCommon
 
-/-- Request handler of property C03: `cmd` is the first token of the line, `args` the rest. -/
+/-- Request handler of property C03: `cmd` is the first token of the line, `args` the rest.
+`c03.model cfg matcher inp sink` (M), `c03.spec cfg selbits inp` (S), `c03.lines lt inp`, `c03.path cfg matcher`. -/
 def handle (cmd : String) (args : List Sx) : String :=
-  match cmd, args with
-  | _, _ => "bad-op"
+  match cmd with
+  | "c03.model" => handleModel args
+  | "c03.spec" => handleSpec args
+  | "c03.lines" => handleLines args
+  | "c03.path" => handlePath args
+  | _ => "bad-op"
 
 end RgVerif.Driver.C03
